@@ -47,7 +47,8 @@ def run(ck):
             jobs = []
             jid = 0
             for base, p, cls in PATHS:
-                for k in ("proc_open", "proc_readlink") if thorough or cls != "existing" else ("proc_open",):
+                # readlink is only meaningful on links (on a regular entry the kernel answers ENOENT to readlinkat(fd, ""))
+                for k in ("proc_open",) if cls == "existing" else ("proc_open", "proc_readlink"):
                     jid += 1
                     op = {"k": k, "base": base, "path": H(p)}
                     if k == "proc_open":
